@@ -38,7 +38,7 @@ var run *vk.Run
 
 func TestMain(m *testing.M) {
 	run = vk.Start("C17", "exploration")
-	run.Rule("peer sets of size 1-8 from curated and seeded arbitrary strings (empty, blanks, common prefixes, unicode, invalid UTF-8, host:8081 and ip:port forms); every permutation for size<=5 (50/200 seeded shuffles above) x construction variants (full list, self omitted, spare capacity, AddPeer in that order, prefix+AddPeer, repeated AddPeer); 10^3 (thorough 10^4) subscriber ids (MACs, circuit ids, empty, unicode, raw bytes); every single removal from every other node, removal chains and re-adds; all 2^n health vectors for n<=4 (thorough n<=6) set through the real checkPeer against loopback HTTP servers answering 200/500/closed, seeded health walks on sets up to 8 through an in-memory transport; 3-node clusters over loopback HTTP with requests entering at every node, including an episode in which a node does not answer while every node still regards it as healthy; membership event histories judged in every state against a set as reference model: every sequence of AddPeer/RemovePeer events (every name of the universe incl. the node's own id may be added, every other name removed, present or not) up to depth 5 (thorough 6, and 7 from the rings {node alone} and {everybody}) over universes of 4 names, delivered to each node of the universe from configured starting rings (alone, everybody, one ring in between; thorough all 8), the same with health flips through the real checkPeer in the alphabet over 3 names to depth 4 (thorough 5), and 300 (thorough 2000) seeded clusters of 3-6 nodes plus up to 2 non-node names in which every node gets its own configured ring, its own random history of 6-35 events and a shuffled tail that takes all nodes to one target set and health view, after which nodes with equal reference set and view are compared with each other. Non-trivial = a distinct (universe, node, starting ring, event history) with at least one effective membership change that ends with >=2 members and >=2 distinct owners over the sample, a distinct (peer set, order, variant) with >=2 peers whose subscriber sample was spread over >=2 owners, a distinct (set, observer, removed/unhealthy peer) where that peer owned some subscribers and other peers owned others, or a distinct end-to-end subscriber whose request was forwarded over HTTP from at least one entry node")
+	run.Rule("peer sets of size 1-8 from curated and seeded arbitrary strings (empty, blanks, common prefixes, unicode, invalid UTF-8, host:8081 and ip:port forms); every permutation for size<=5 (50/200 seeded shuffles above) x construction variants (full list, self omitted, spare capacity, AddPeer in that order, prefix+AddPeer, repeated AddPeer); 10^3 (thorough 10^4) subscriber ids (MACs, circuit ids, empty, unicode, raw bytes); every single removal from every other node, removal chains and re-adds; all 2^n health vectors for n<=4 (thorough n<=6) set through the real checkPeer against loopback HTTP servers answering 200/500/closed, seeded health walks on sets up to 8 through an in-memory transport; 3-node clusters over loopback HTTP with requests entering at every node, including an episode in which a node does not answer while every node still regards it as healthy; membership event histories judged in every state against a set as reference model: every sequence of AddPeer/RemovePeer events (every name of the universe incl. the node's own id may be added, every other name removed, present or not) up to depth 5 (quick: 4 from the ring {node alone} in all but the first universe; thorough: 6 and 7 from the rings {node alone} and {everybody} in the first universes), and in a second pass to depth 9 (thorough 13) without descending below a reported ring that was already explored to the remaining depth, over universes of 4 names, delivered to each node of the universe from configured starting rings (alone, everybody, one ring in between; thorough all 8), the same with health flips through the real checkPeer in the alphabet over 3 names to depth 4 (thorough 5), and 300 (thorough 2000) seeded clusters of 3-6 nodes plus up to 2 non-node names in which every node gets its own configured ring, its own random history of 6-35 events and a shuffled tail that takes all nodes to one target set and health view, after which nodes with equal reference set and view are compared with each other. Non-trivial = a distinct (universe, node, starting ring, event history; beyond 5 enumerated events: history shape and final set) with at least one effective membership change that ends with >=2 members and >=2 distinct owners over the sample, a distinct (peer set, order, variant) with >=2 peers whose subscriber sample was spread over >=2 owners, a distinct (set, observer, removed/unhealthy peer) where that peer owned some subscribers and other peers owned others, or a distinct end-to-end subscriber whose request was forwarded over HTTP from at least one entry node")
 	run.Assume("nodes are constructed from independent copies of the peer list (NewPeerPool sorts the caller's slice in place)")
 	run.Assume("a peer set never contains both H and H:port: getPeerAddr resolves node id H to the listed address H:8081, i.e. the code treats the two as names of one node")
 	run.Assume("health views are per node; agreement under a health vector U is judged between nodes outside U that all see exactly U as unhealthy (a node always regards itself as eligible, by the anchored mechanism)")
